@@ -30,7 +30,8 @@ RULE = ('tables from tables.rand_spec (1..5 x 1..5, layout recipes, all id alpha
         'commas/quotes/brackets) written by to_hdf5 / to_json; for each axis EVERY non-empty subset when the axis has <= 4 ids, '
         '8 random subsets beyond, ids handed over in shuffled order; each subset through from_hdf5 default, '
         'subset_with_metadata=False, _subset_table on the HDF5 path, parse_table(ids=) on the JSON text and _subset_table on the '
-        'JSON text as written, json.dumps default, indent=2 and separators=(",",":"); plus requests naming an unknown id, one '
+        'JSON text as written, json.dumps default, indent=2 and separators=(",",":"); plus requests naming an unknown id '
+        '(an unrelated string, a stored id of maximal length with extra characters appended, a proper prefix, another case, an id of the other axis), one '
         'whole read per file, and a stream of tables with 9..12 ids on one axis (kept indices >= 8, two-digit indices) with small subsets; '
         'tables whose row/column strings trigger the known findings F34/F35 reach the JSON slicer only as tagged witness cases; '
         'non-trivial = axis with >= 2 ids and a proper subset, or an unknown-id request; distinct by case hash')
@@ -328,6 +329,25 @@ def cases_for(rng, spec, gen_by, tier, readers=None):
         ser = rng.choice(SERS)
         if not readers or 'cmd_json' in readers:
             yield dict(base, kind='cmd_json', axis=axis, ids=list(bad), ser=ser)
+        # unknown ids that are near misses of stored ones: a stored id of maximal length plus extra characters
+        # (a reader that cuts the request to the stored fixed width would take it for the stored id), a proper
+        # prefix of a stored id, a stored id in another case; the id they resemble is NOT part of the request
+        longest = max(ids, key=len)
+        near = [longest + '0', longest + longest]
+        if len(longest) > 1 and longest[:-1] not in ids:
+            near.append(longest[:-1])
+        if longest.swapcase() not in ids:
+            near.append(longest.swapcase())
+        rest = [i for i in ids if i != longest]
+        for j, miss in enumerate(near):
+            if miss in ids:
+                continue
+            req = rest[:rng.randint(0, len(rest))] + [miss]
+            rng.shuffle(req)
+            for k in ('h5', 'h5nomd', 'cmd_h5', 'json'):
+                yield dict(base, kind=k, axis=axis, ids=list(req))
+            if not readers or 'cmd_json' in readers:
+                yield dict(base, kind='cmd_json', axis=axis, ids=list(req), ser=SERS[j % len(SERS)])
         # an id of the OTHER axis is unknown on this one
         oth = spec['sids'] if axis == 'observation' else spec['oids']
         if oth and oth[0] not in ids:
